@@ -31,6 +31,10 @@ def load_repo():
     if src not in sys.path:
         sys.path.insert(0, src)
     import twisted.python.log as tlog  # noqa
+    if not getattr(tlog, "_mbh_quiet", False):
+        # log.err() of a caught sweep failure would otherwise print a traceback
+        tlog.startLoggingWithObserver(lambda ev: None, setStdout=False)
+        tlog._mbh_quiet = True
     from wormhole_mailbox_server import (server, server_websocket, server_tap,
                                          database, web)
     assert os.path.realpath(server.__file__).startswith(os.path.realpath(src)), server.__file__
@@ -219,6 +223,22 @@ class Driver(object):
         shim.connect = connect
         m["database"].sqlite3 = shim
 
+        import random as _random
+
+        class PickRandom(object):
+            """stands in for the `random` module inside server.py: allocate's
+            choice is the one the replayed behaviour made, when there is one"""
+            def choice(self_, seq):
+                want = drv._force_pick
+                if want is not None and want in seq:
+                    return want
+                return _random.choice(seq)
+
+            def __getattr__(self_, name):
+                return getattr(_random, name)
+        self._force_pick = None
+        m["server"].random = PickRandom()
+
     def close(self):
         try:
             self._abandon()
@@ -227,6 +247,8 @@ class Driver(object):
                 c.close()
             self._ro = {}
             self.m["database"].sqlite3 = sqlite3
+            import random as _r
+            self.m["server"].random = _r
             import time as _t
             self.m["ws"].time = _t
             self.m["tap"].time = _t
@@ -563,7 +585,7 @@ class Driver(object):
             if extra_json:
                 d.update(extra_json)
             self._sent = d
-            self._pick = e["pick"]
+            self._force_pick = self.tokens.conc("name", e["pick"]) if e["pick"] != ABSENT else None
             err = self._guard(lambda: p.onMessage(json.dumps(d).encode("utf-8"), False), cname)
             if k == "CrashInCmd":
                 crash_at = e["at"]
